@@ -468,8 +468,18 @@ func (e *Env) cutLoop(fr *Frame, order []*ssa.BasicBlock, loops map[*ssa.BasicBl
 	}
 	rr, wlog, alog := discover(in, entryVals)
 	modified := map[string]bool{}
+	epochChanged := false
 	noteMods := func(rr *regionRun, base *State) {
 		for _, bs := range rr.backStates {
+			if bs.base != base.base {
+				// the body called unknown code: every array it did not explicitly keep may have changed
+				epochChanged = true
+				for n := range e.heapSorts {
+					if _, kept := bs.heap[n]; !kept {
+						modified[n] = true
+					}
+				}
+			}
 			for n, t := range bs.heap {
 				if e.heapGet(base, n, e.heapSorts[n]) != t {
 					modified[n] = true
@@ -584,6 +594,10 @@ func (e *Env) cutLoop(fr *Frame, order []*ssa.BasicBlock, loops map[*ssa.BasicBl
 		if freshOnly {
 			e.assume(fmt.Sprintf("(forall ((|$r| Int)) (! (=> (< |$r| %s) (= (select %s |$r|) (select %s |$r|))) :pattern ((select %s |$r|))))", in.next, hv.heap[n], old, hv.heap[n]))
 		}
+	}
+	if epochChanged {
+		e.epoch++
+		hv.base = fmt.Sprintf("e%d", e.epoch)
 	}
 	nx := e.fresh("next", sInt)
 	e.assume(sx("<=", in.next, nx))
